@@ -37,7 +37,7 @@ func init() {
 			"Non-trivial: a regex case whose subject matches, or a cache history with at least one reset or one overlapping pair of loads; distinct by (pattern, subject, template) resp. (capacity, key sequence / interleaving signature).",
 		Assume:        []string{"Go's regexp package is the definition of matches()/replace() (as the statement says)", "the statistics hook takes the cache's own read lock"},
 		MinNontrivial: tierN(15000, 200000),
-		Required:      []string{"regex:matches", "regex:replace", "regex:dynamic-pattern", "regex:invalid-constant-rejected", "cache:seq", "cache:failed-load-retried", "cache:concurrent", "cache:swapped-global", "cache:observer-samples"},
+		Required:      []string{"regex:matches", "regex:replace", "regex:dynamic-pattern", "regex:invalid-constant-rejected", "regex:escape-differential", "cachebig:capacity-reached", "cache:seq", "cache:failed-load-retried", "cache:concurrent", "cache:swapped-global", "cache:observer-samples"},
 		Families: []Family{
 			witnessFamily("C16"),
 			{Name: "regex", N: tierN(150000, 6000000), Run: c16Regex},
